@@ -458,13 +458,25 @@ func ruleNNumConv(c *engine.Context) *report.Rule {
 				if !strings.HasPrefix(name, "Parse") && name != "Atoi" {
 					continue
 				}
-				// conversions of path numbers: the helper yields an int or a float64 (index, slice bound,
-				// number literal); strconv used for other purposes (escape decoding, …) is not this rule's business
-				yieldsNumber := p.FuncIsGenerated(fn)
-				res := fn.Signature.Results()
-				for i := 0; i < res.Len(); i++ {
-					if isBasicKind(res.At(i).Type(), types.Int) || isBasicKind(res.At(i).Type(), types.Float64) {
-						yieldsNumber = true
+				// conversions of path numbers: the numeric result is kept as a number (stored, returned,
+				// passed on); strconv used to decode an escape into a character is not this rule's business
+				yieldsNumber := false
+				for _, ref := range *call.Referrers() {
+					ex, isEx := ref.(*ssa.Extract)
+					if !isEx || ex.Index != 0 {
+						continue
+					}
+					for _, r2 := range *ex.Referrers() {
+						switch x := r2.(type) {
+						case *ssa.Convert:
+							if !isBasicKind(x.Type(), types.Int) && !isBasicKind(x.Type(), types.Float64) && !isBasicKind(x.Type(), types.Int64) {
+								continue
+							}
+							yieldsNumber = true
+						case *ssa.DebugRef:
+						default:
+							yieldsNumber = true
+						}
 					}
 				}
 				if !yieldsNumber {
@@ -485,10 +497,8 @@ func ruleNNumConv(c *engine.Context) *report.Rule {
 				default:
 					ok2, why = false, "unexpected conversion "+name
 				}
-				if _, isParam := call.Call.Args[0].(*ssa.Parameter); !isParam && ok2 {
-					if _, isConst := call.Call.Args[0].(*ssa.Const); !isConst {
-						ok2, why = false, "the text is modified before conversion ("+call.Call.Args[0].String()+")"
-					}
+				if ok2 && !unmodifiedText(call.Call.Args[0], 0) {
+					ok2, why = false, "the text is modified before conversion ("+call.Call.Args[0].String()+")"
 				}
 				r.Oblige(ok2)
 				r.Sample("%s: strconv.%s on the text unmodified, base 10 / 64-bit: %v", load.FuncName(fn), name, ok2)
@@ -499,4 +509,45 @@ func ruleNNumConv(c *engine.Context) *report.Rule {
 		}
 	}
 	return r
+}
+
+// unmodifiedText: v is a parameter, a constant, or the matched text as the generated parser
+// captures it (a conversion of a slice of the input, possibly merged by phis): nothing computed
+// from it by a call or a concatenation.
+func unmodifiedText(v ssa.Value, depth int) bool {
+	if depth > 8 {
+		return false
+	}
+	switch x := v.(type) {
+	case *ssa.Parameter, *ssa.Const, *ssa.FreeVar:
+		return true
+	case *ssa.Phi:
+		for _, e := range x.Edges {
+			if e != ssa.Value(x) && !unmodifiedText(e, depth+1) {
+				return false
+			}
+		}
+		return true
+	case *ssa.Convert:
+		return unmodifiedText(x.X, depth+1)
+	case *ssa.ChangeType:
+		return unmodifiedText(x.X, depth+1)
+	case *ssa.Slice:
+		return unmodifiedText(x.X, depth+1)
+	case *ssa.UnOp:
+		if x.Op == token.MUL {
+			switch a := x.X.(type) {
+			case *ssa.FieldAddr, *ssa.Global:
+				return true
+			case *ssa.Alloc:
+				for _, ref := range *a.Referrers() {
+					if st, ok := ref.(*ssa.Store); ok && st.Addr == ssa.Value(a) && !unmodifiedText(st.Val, depth+1) {
+						return false
+					}
+				}
+				return true
+			}
+		}
+	}
+	return false
 }
